@@ -737,3 +737,74 @@ Proof.
       apply fname_eqb_neq. intros Eq. apply (Hlisted sv); [rewrite E'; apply in_or_app; right; left; reflexivity|].
       rewrite Eq. exact Hnone.
 Qed.
+
+(* ------------------------------------------------------------------ *)
+(* DeleteRange                                                          *)
+Lemma delete_range_ok c w e ss t tw mn mx :
+  cfg_ok c -> e_fault e = None -> WInvS c w (e_disk e) ss t tw -> ws_index_start tw = 0 ->
+  st_next_id w + 1 < two64 -> mx + 1 < two64 ->
+  exists r w' e',
+    delete_range c w mn mx e = (r, w', e') /\ e_fault e' = None /\ WInv c w' (e_disk e') /\
+    dk_stable (e_disk e') = dk_stable (e_disk e) /\
+    st_next_id w <= st_next_id w' /\ st_next_id w' <= st_next_id w + 1 /\
+    match spec_delete (abs w (e_disk e)) mn mx with
+    | Some a' => r = ROk /\ abs w' (e_disk e') = a'
+    | None => res_class r = RErrOther /\ abs w' (e_disk e') = abs w (e_disk e)
+    end.
+Proof.
+  intros Hc He HI His Hnid Hmx.
+  assert (Hsame : exists r w' e', (ROk, w, e) = (r, w', e') /\ e_fault e' = None /\ WInv c w' (e_disk e') /\
+            dk_stable (e_disk e') = dk_stable (e_disk e) /\
+            st_next_id w <= st_next_id w' /\ st_next_id w' <= st_next_id w + 1 /\
+            r = ROk /\ abs w' (e_disk e') = abs w (e_disk e)).
+  { exists ROk, w, e. repeat split; auto; try lia. exists ss, t, tw. exact HI. }
+  destruct (abs_props _ _ _ _ _ _ HI) as (Hsf & Hsl & Hemp & _ & Hne).
+  assert (Habs := abs_eq _ _ _ _ _ _ HI).
+  assert (Hcl : st_closed w = false) by apply HI. assert (Hfa : st_failed w = false) by apply HI.
+  unfold delete_range. rewrite Hcl.
+  set (L := last_index (st_segs w) (st_tail w)) in *.
+  set (F := first_index (st_segs w) (st_tail w)) in *.
+  set (a := abs w (e_disk e)) in *.
+  assert (Hfirst : sl_first a = F).
+  { destruct (N.eqb_spec L 0) as [E0|E0].
+    - rewrite Habs in Hsf |- *. cbn in Hsf |- *. exact Hsf.
+    - destruct (Hne E0) as (Ha & _). rewrite Ha. reflexivity. }
+  assert (Hempb : sl_is_empty a = (L =? 0)).
+  { destruct (N.eqb_spec L 0) as [E|E]; [apply Hemp; exact E|].
+    destruct (sl_is_empty a); [|reflexivity]. exfalso. apply E. apply Hemp. reflexivity. }
+  unfold spec_delete. rewrite Hempb, Hsl, Hfirst.
+  destruct (N.ltb_spec mx mn) as [Hmm|Hmm]; cbn [orb]; [exact Hsame|].
+  rewrite Hfa.
+  destruct (N.eqb_spec L 0) as [EL|EL]; cbn [orb].
+  - (* empty log *)
+    assert (EF : F = 0).
+    { rewrite Habs in Hsf. cbn in Hsf. symmetry. exact Hsf. }
+    rewrite EL, EF. destruct (N.ltb_spec mx 0) as [|_]; [lia|]. cbn [orb].
+    destruct (N.ltb_spec 0 mn) as [_|Hmn]; [exact Hsame|].
+    destruct (N.leb_spec mn 0) as [_|]; [|lia].
+    rewrite mod64_small by exact Hmx.
+    destruct (truncate_head_ok c w e ss t tw (mx + 1) Hc He HI His Hnid ltac:(fold F; lia) Hmx)
+      as (w' & e' & Hth & He' & HI' & Hst' & Hid1 & Hid2 & Habs').
+    exists ROk, w', e'. rewrite Hth. repeat split; auto.
+    rewrite Habs'. fold L. rewrite EL. destruct (N.ltb_spec 0 (mx + 1)); [|lia].
+    rewrite Habs. reflexivity.
+  - destruct (Hne EL) as (Ha & HFm & HF1 & HFL & HLlen & HL1 & Hcons).
+    destruct (N.ltb_spec mx F) as [|HmF]; cbn [orb]; [exact Hsame|].
+    destruct (N.ltb_spec L mn) as [|HLm]; cbn [orb]; [exact Hsame|].
+    destruct (N.leb_spec mn F) as [HmnF|HmnF].
+    + rewrite mod64_small by exact Hmx.
+      destruct (truncate_head_ok c w e ss t tw (mx + 1) Hc He HI His Hnid ltac:(fold F; lia) Hmx)
+        as (w' & e' & Hth & He' & HI' & Hst' & Hid1 & Hid2 & Habs').
+      exists ROk, w', e'. rewrite Hth.
+      assert (Hres : abs w' (e_disk e') =
+                if L <=? mx then sl_empty
+                else {| sl_first := mx + 1; sl_ents := skipn (N.to_nat (mx + 1 - F)) (sl_ents a) |}).
+      { rewrite Habs'. fold L F a. destruct (N.ltb_spec L (mx + 1)); destruct (N.leb_spec L mx); try lia; reflexivity. }
+      destruct (L <=? mx); repeat split; auto.
+    + destruct (N.leb_spec L mx) as [HLmx|HLmx].
+      * destruct (truncate_tail_ok c w e ss t tw (mn - 1) Hc He HI His Hnid ltac:(fold F; lia) ltac:(fold L; lia))
+          as (w' & e' & Hth & He' & HI' & Hst' & Hid1 & Hid2 & Habs').
+        exists ROk, w', e'. rewrite Hth. repeat split; auto.
+        rewrite Habs'. fold F a. f_equal. f_equal. lia.
+      * exists RErrMiddle, w, e. repeat split; auto; try lia. exists ss, t, tw. exact HI.
+Qed.
